@@ -71,6 +71,26 @@ def gen_case(seed, tier):
         faults = []
         settings['statistics'] = 0
         settings['eviction_policy'] = rng.choice(('least-recently-stored', 'none'))
+    if rng.random() < 0.08:
+        # counters that come and go: two keys holding the same few small numbers, created by incr, removed, created again -
+        # the rows change places while the numbers stay the same, so only the key tells two counters apart
+        ck = rng.sample(COUNTERS, 2) if len(COUNTERS) >= 2 else ['n0', 'n1']
+        progs = {}
+        for ci in range(rng.choice((2, 2, 3))):
+            prog = []
+            for j in range(rng.randint(4, 7)):
+                r = rng.random()
+                k = rng.choice(ck)
+                if r < 0.55:
+                    prog.append({'op': 'incr', 'k': k, 'delta': 1, **({'retry': True} if rng.random() < 0.5 else {})})
+                elif r < 0.8:
+                    prog.append({'op': rng.choice(('pop', 'delete')), 'k': k, **({'retry': True} if rng.random() < 0.5 else {})})
+                elif r < 0.9:
+                    prog.append({'op': 'set', 'k': k, 'v': rng.choice((1, 2))})
+                else:
+                    prog.append({'op': 'get', 'k': k})
+            progs['c%d' % ci] = prog
+        faults = []
     prefill = None
     if rng.random() < 0.10:
         # a bulk removal (evict / expire / clear: batches of 100 rows, one transaction each) running next to writers that
